@@ -220,8 +220,9 @@ def jobs_c05(tier, seed):
 def jobs_c08(tier, seed):
     f = ["c08"]
     names = [
-        ("never_two_cheap_ops", "AutoStream::never: any two operations from {write_all, write_fmt, flush} with symbolic <=2-byte payloads vs StripStream"),
-        ("new_never_two_cheap_ops", "AutoStream::new(.., Never): same"),
+        ("never_one_cheap_op", "AutoStream::never: any one operation from {write_all, write_fmt, flush} with a symbolic <=2-byte payload vs StripStream"),
+        ("new_never_one_cheap_op", "AutoStream::new(.., Never): same"),
+        ("never_state_carried_across_calls", "AutoStream::never: write_all ending inside an escape sequence, then write_all of any 2 bytes, vs StripStream"),
         ("never_one_write_op", "AutoStream::never: one write / write_vectored with a symbolic <=1-byte first slice vs StripStream"),
         ("new_never_one_write_op", "AutoStream::new(.., Never): same"),
         ("always_ansi_two_ops", "AutoStream::always_ansi: any two operations, bytes forwarded unchanged"),
@@ -506,7 +507,7 @@ REGISTRY = {
         "jobs": jobs_c08,
         "level": "model_checking",
         "functions": ["anstream::AutoStream::{new, never, always, always_ansi, into_inner, current_choice} and its io::Write impl over &mut dyn Write and Vec<u8>", "anstream::StripStream (oracle for Never)"],
-        "bounds": {"quick": "pass-through: every sequence of 2 write-family operations (kind symbolic among write/write_all/write_vectored/write_fmt/flush), payloads <=2 bytes; Never: every pair from {write_all, write_fmt, flush} plus single write / write_vectored operations with <=1-byte first slice, each against a StripStream fed the same operations", "thorough": "same"},
+        "bounds": {"quick": "pass-through: every sequence of 2 write-family operations (kind symbolic among write/write_all/write_vectored/write_fmt/flush), payloads <=2 bytes; Never: every single operation (write_all, write_fmt, flush with <=2 bytes; write / write_vectored with <=1-byte first slice) and a two-call sequence cut inside an escape sequence, each against a StripStream fed the same operations", "thorough": "same"},
         "outside": "longer operation sequences and payloads; files and boxed writers (same generic code); ColorChoice::Auto is C09; Windows arms",
         "assumptions": ["Never is compared with a StripStream fed the same operations (C01/C06 tie the strip stream to the model)"],
     },
